@@ -163,19 +163,22 @@ def run_problem(rec, prob, kwargs=None, key_prefix="", timeout_ms=60000, max_pat
         if tag == "crash":
             exc = res[1]
             # an exception escaping mici on a feasible path: candidate, replayed concretely
-            s = z3.Solver()
-            s.set("timeout", 20000)
-            for a_ in assumptions + (mk.bounds() if robust else []):
-                s.add(a_)
-            if str(s.check()) != "sat":
+            model = None
+            for extra_c in ((mk.bounds() if robust else []), []):
                 s = z3.Solver()
-                for a_ in assumptions:
+                s.set("timeout", 20000)
+                for a_ in assumptions + extra_c:
                     s.add(a_)
-                s.check()
-            try:
-                vals = mk.values(s.model())
-            except z3.Z3Exception:
-                vals = {}
+                if str(s.check()) == "sat":
+                    model = s.model()
+                    break
+            if model is None:
+                # the exception was raised on a path whose feasibility the solver could not establish (explored only because
+                # feasibility queries are answered conservatively) and for which it finds no witness: not a candidate
+                rec.note(f"path{rec.paths}: {type(exc).__name__} on a path without a satisfying assignment (unresolved, dropped): {str(exc)[:80]}")
+                rec.unresolved_paths = getattr(rec, "unresolved_paths", 0) + 1
+                continue
+            vals = mk.values(model)
             rec.candidate(key=f"{key_prefix}crash:{type(exc).__name__}", label=f"exception {type(exc).__name__}: {exc}",
                           payload={"kwargs": kwargs, "values": vals, "label": None, "crash": type(exc).__name__},
                           describe=res[3][-1500:])
